@@ -309,16 +309,27 @@ impl Dfa {
         self.union(&Dfa::eps(self.k))
     }
 
-    /// L^n (n-fold concatenation, L^0 = {eps})
+    /// L^n (n-fold concatenation, L^0 = {eps}), by repeated squaring: O(log n) concatenations
+    /// (each one is followed by a minimisation whose cost grows with the size of the result)
     pub fn power(&self, n: u32) -> Option<Dfa> {
         if n > LOOP_CAP {
             return None;
         }
-        let mut r = Dfa::eps(self.k);
-        for _ in 0..n {
-            r = self.concat(&r)?;
+        let mut result = Dfa::eps(self.k);
+        let mut base = self.clone();
+        let mut e = n;
+        let mut first = true;
+        while e > 0 {
+            if e & 1 == 1 {
+                result = if first { base.clone() } else { result.concat(&base)? };
+                first = false;
+            }
+            e >>= 1;
+            if e > 0 {
+                base = base.concat(&base)?;
+            }
         }
-        Some(r)
+        Some(result)
     }
 
     /// union of L^n for lo <= n <= hi (hi = None: unbounded)
@@ -334,12 +345,8 @@ impl Dfa {
                 if m > LOOP_CAP {
                     return None;
                 }
-                let o = self.opt()?;
-                let mut tail = Dfa::eps(self.k);
-                for _ in 0..m {
-                    tail = o.concat(&tail)?;
-                    // (L?)^m stabilises as soon as two successive powers agree
-                }
+                // (L + eps)^m
+                let tail = self.opt()?.power(m)?;
                 head.concat(&tail)
             }
         }
